@@ -179,28 +179,18 @@ Definition f5_state := mkDA [Some (IPlain 1); Some (IPlain 2); Some (IPlain 3)] 
 Definition counters_ok (d : darr) : bool :=
   (da_objCount d =? count_present (da_values d))%Z && (da_pvc d =? count_vp (da_values d))%Z.
 
-(* N5: truncation never decrements objCount *)
-Lemma counters_truncate_refuted :
-  counters_ok f5_state = true /\ counters_ok (fst (d_setLength f5_state 2)) = false.
+(* the former witnesses of C07-N5 / F3 / C07-N6 now behave (fixes 57195f1, 8dbb372): regression examples *)
+Example counters_truncate_example :
+  counters_ok f5_state = true /\ counters_ok (fst (d_setLength f5_state 2)) = true.
 Proof. vm_compute. auto. Qed.
 
-(* ... so that the fast-path guard holds for an array with a hole, and Export() trusts it *)
-Definition f3_state :=
-  match fst (d_setOwnIdx (fst (d_setLength f5_state 2)) 3 9) with
-  | ID d => mkDA (da_values d) (da_length d) (da_objCount d) (da_pvc d) (da_lw d)
-                 (mkB true [] [(2, EData 55 true true true)])
-  | _ => f5_state end.
-Lemma export_refuted : d_guard f3_state = true /\ d_export f3_state <> s_export (absD f3_state).
-Proof. vm_compute. split; congruence. Qed.
-
-(* N6: the dense->sparse transition inside defineProperty loses the propValueCount increment *)
 Definition n6_state := mkDA [] 0 0 0 true b0.
-Lemma pvc_undercount_refuted :
+Example pvc_after_switch_example :
   match fst (d_defineIdx n6_state 5000 (mkD (Some 1) None None None None (Some false))) with
-  | IS s => sa_pvc s = 0%Z /\ count_vp_items (sa_items s) = 1%Z /\
-            absS (fst (sp_setLength s 0)) <> fst (s_array_set_length (absS s) 0)
+  | IS s => sa_pvc s = 1%Z /\ count_vp_items (sa_items s) = 1%Z /\
+            absS (fst (sp_setLength s 0)) = fst (s_array_set_length (absS s) 0)
   | _ => False end.
-Proof. vm_compute. repeat split; congruence. Qed.
+Proof. vm_compute. auto. Qed.
 
 (* ------------------------------------------------------------------------------------------- *)
 (* 7. the sort validator *)
